@@ -1,7 +1,8 @@
 #!/bin/sh
 # usage: tools/run_all.sh quick|thorough   -- runs every claimed check, prints one line each
 T=${1:-quick}
-cd /verif
+cd "$(dirname "$0")/.."
+mkdir -p work
 for id in $(python3 -c "import json;print(' '.join(c['property_id'] for c in json.load(open('MANIFEST.json'))['checks']))"); do
   s=$(date +%s)
   ./check $id --tier $T > work/runall_$id.out 2>&1; rc=$?
